@@ -32,7 +32,7 @@ func checkC13(c *Ctx) {
 		"EOF gives a syntax error; (C13.escape) the backtick machine's step table is extracted and its complete configuration space (state x hex count x buffer) is explored exhaustively: " +
 		"exactly `CR` `LF` `CRLF` `TAB` `SP` `BK` and `U+`H{1,8} decode, a lone quote between backticks denotes itself only directly after the opening backtick, every other text is kept verbatim " +
 		"(the consumed characters are returned unchanged); (C13.codepoint) a U+hex escape is decoded only under err == nil && utf8.ValidRune. " +
-		"(C13.verbatim) from the string token to the text value the characters are handed over unchanged (conversions only) at each of the five hand-over points; (C13.fresh = C07.fresh) a literal yields a new text on every evaluation. NewLexer stores the given characters unchanged (no line-break normalisation); (C13.decode = C17.runeerror) U+FFFD is a character, not a decoding error. NOT decided: the round trip encode∘decode = id itself (needs an encoder model), line bookkeeping (C18)."
+		"(C13.verbatim) from the string token to the text value the characters are handed over unchanged (conversions only) at each of the five hand-over points; (C13.fresh = C07.fresh) a literal yields a new text on every evaluation. NewLexer stores the given characters unchanged (no line-break normalisation); (C13.decode = C17.runeerror) U+FFFD is a character, not a decoding error. NOT decided: the round trip encode∘decode = id itself (needs an encoder model), line bookkeeping (C18). (C13.errors = C05.errdrop) no lexer error is dropped on its way up."
 	R.Assumptions = []string{
 		"Lexer.Next/Peek/Peek2/GetCurrentChar return the characters at cursor+1 (after moving) / +1 / +2 / +0",
 		"strconv.ParseInt and utf8.ValidRune behave as documented",
@@ -168,6 +168,8 @@ func checkC13(c *Ctx) {
 
 	// every character that can be written in a literal survives decoding of the source (U+FFFD is a character, not an error)
 	borrowRule(c, "C17", "C17.runeerror", "C13.decode")
+	// an unterminated literal is a syntax error wherever it stands: no error of the lexer is dropped on its way up
+	borrowRule(c, "C05", "C05.errdrop", "C13.errors")
 
 	// ---- C13.quotes: tables
 	pe0 := newPE(u, info, nil)
